@@ -85,8 +85,9 @@ class Report:
     # ---- finish
     def finish(self, extra_cov=None):
         wall = time.time() - self.t0
-        os.makedirs(os.path.join(VERIF, 'evidence'), exist_ok=True)
-        vdir = os.path.join(VERIF, 'out', 'violations', self.pid)
+        evdir = os.environ.get('VERIF_EVIDENCE_DIR') or os.path.join(VERIF, 'evidence')
+        os.makedirs(evdir, exist_ok=True)
+        vdir = os.path.join(os.environ.get('VERIF_OUT_DIR') or os.path.join(VERIF, 'out'), 'violations', self.pid)
         paths = []
         if self.violations:
             os.makedirs(vdir, exist_ok=True)
@@ -116,6 +117,7 @@ class Report:
             technique=self.technique,
             explanation=self.explanation,
             inconclusive=self.inconclusive[:40],
+            inconclusive_by_template=_by_template(self.inconclusive),
             n_inconclusive=len(self.inconclusive),
             harness_errors=self.harness_errors[:20],
             known_findings_seen=sorted(self.known_seen),
@@ -130,7 +132,7 @@ class Report:
             cov.update(extra_cov)
         ev = dict(property_id=self.pid, tier=self.tier, seed=self.seed, level=self.level, coverage=cov,
                   assumptions=self.assumptions, wall_s=round(wall, 2), violations=len(self.violations))
-        with open(os.path.join(VERIF, 'evidence', self.pid + '.json'), 'w') as f:
+        with open(os.path.join(evdir, self.pid + '.json'), 'w') as f:
             json.dump(ev, f, indent=1, default=str)
         for key, what in sorted(self.known_seen.items()):
             print('KNOWN-FINDING: property=%s %s: %s' % (self.pid, key, what))
@@ -155,6 +157,14 @@ class Report:
             code = 0
         sys.stdout.flush()
         return code
+
+
+def _by_template(items):
+    d = {}
+    for x in items:
+        k = str(x).split(':')[0][:80]
+        d[k] = d.get(k, 0) + 1
+    return dict(sorted(d.items(), key=lambda kv: -kv[1])[:20])
 
 
 def _repo_head():
